@@ -23,7 +23,8 @@
 From Coq Require Import List Bool ZArith QArith.
 From Pandora Require Import Lib.Ext Model.Machine Spec.Language Model.Criteria Model.FlagSteps Model.FlagPipeline
   Model.Wta Spec.Validity Proofs.WtaP
-  Proofs.FlagEnvP Proofs.CriteriaP Proofs.FlagStepsP Proofs.FlagPipelineP Proofs.FlagWtaP Gen.Flags.
+  Model.MatchingCost Proofs.MatchingCostP
+  Proofs.FlagEnvP Proofs.CriteriaP Proofs.FlagStepsP Proofs.FlagPipelineP Proofs.FlagWtaP Proofs.FlagCostP Gen.Flags.
 Import ListNotations.
 Open Scope Z_scope.
 
@@ -102,6 +103,29 @@ Section AfterMatchingCost.
     (Z.land (flag r c) 195 <> 0 <-> allnan r c = true).
   Proof. exact (invalid_iff_allnan E L gmin gmax allnan Hwf Hoff Hd). Qed.
 End AfterMatchingCost.
+
+(* ---- the same without any hypothesis on the NaN pattern, for the SAD and SSD cost-volume models of C02
+   (any image size, odd window, subpix >= 1, masks, interval grids): C02 proves the NaN pattern
+   (Proofs/MatchingCostP.v: cost = NaN iff not computable) and a sample d = D/subpix is computable only
+   if the integer floor(d) is.  [layout_of inp dmin dmax] = the layout the criteria functions see,
+   [vol_allnan ... vol r c] = "every cost of pixel (r, c) in the volume is NaN". *)
+Theorem C04_nan_pattern_sad : forall inp dmin dmax r c, wf_cfg inp -> dmin <= dmax ->
+  0 <= r < i_ny inp -> 0 <= c < i_nx inp ->
+  nan_pattern_ok (layout_of inp dmin dmax) (i_gmin inp) (i_gmax inp)
+                 (vol_allnan inp dmin dmax (sad_volume inp dmin dmax)) r c.
+Proof. exact nan_pattern_sad. Qed.
+
+Theorem C04_invalid_iff_allnan_sad : forall E inp dmin dmax r c,
+  wf_env E = true -> wf_cfg inp -> dmin <= dmax -> 0 <= r < i_ny inp -> 0 <= c < i_nx inp ->
+  (Z.land (after_mc E (layout_of inp dmin dmax) (vol_allnan inp dmin dmax (sad_volume inp dmin dmax)) r c) 195 <> 0
+   <-> forall k, 0 <= k < nb_disp (i_s inp) dmin dmax -> sad_volume inp dmin dmax r c k = None).
+Proof. exact invalid_iff_allnan_sad. Qed.
+
+Theorem C04_invalid_iff_allnan_ssd : forall E inp dmin dmax r c,
+  wf_env E = true -> wf_cfg inp -> dmin <= dmax -> 0 <= r < i_ny inp -> 0 <= c < i_nx inp ->
+  (Z.land (after_mc E (layout_of inp dmin dmax) (vol_allnan inp dmin dmax (ssd_volume inp dmin dmax)) r c) 195 <> 0
+   <-> forall k, 0 <= k < nb_disp (i_s inp) dmin dmax -> ssd_volume inp dmin dmax r c k = None).
+Proof. exact invalid_iff_allnan_ssd. Qed.
 
 (* ---- after winner-takes-all (model of C03): invalid_disparity iff all costs NaN, flags carried over.
    Hypothesis on invalid_disparity exactly as in the property: NaN ([None]) or a value that is not a
@@ -211,7 +235,8 @@ Proof. vm_compute. repeat split. Qed.
    after the matching cost reads 1 7 4 0 0 4 1: border pixels 1; pixel 1 has the no-data pixel in its
    window (bit 0), hence no computable cost (bit 1), and candidates left of the image (bit 2); pixels 2 and
    5 only an incomplete range (bit 2).  Then, on pixel 3, a legal pipeline with refinement twice,
-   validation + sgm interpolation twice (mismatch, filled) and a regularising filter: 8 + 32 + ... *)
+   validation + sgm interpolation twice (mismatch, then filled) and a median_for_intervals filter that does not
+   regularise this pixel: stopped interpolation + filled mismatch = 8 + 32, every write carry-free. *)
 Definition ex_L : layout :=
   mkLayout 3 7 1 (-2) 1 true true
     (fun r c => if (r =? 0) && (c =? 0) then 1 else 0)
@@ -244,6 +269,9 @@ Print Assumptions C04_bit7_iff.
 Print Assumptions C04_mc_only_criteria_bits.
 Print Assumptions C04_invalid_iff_nocost.
 Print Assumptions C04_invalid_iff_allnan.
+Print Assumptions C04_nan_pattern_sad.
+Print Assumptions C04_invalid_iff_allnan_sad.
+Print Assumptions C04_invalid_iff_allnan_ssd.
 Print Assumptions C04_allnan_iff_invalid_disp.
 Print Assumptions C04_inv_meaning.
 Print Assumptions C04_step_touches_own_bits.
